@@ -61,12 +61,15 @@ Print Assumptions C11_source_close_once.
 From AV Require Import Model.FlagSem Proofs.FlagSemP.
 (* any number of threads calling close() on an open channel, statement by statement, EVERY
    schedule: at most one of them sends Channel.Close (the test "is it open" and the move to
-   CLOSING being one step under the lock - C11_source_close_once above) *)
-Theorem C11_concurrent_close_at_most_once : forall n sched, (cl_sent (close_run true n sched) <= 1)%nat.
+   CLOSING being one step under the lock - C11_source_close_once above); `skip` says which of
+   the callers that found the channel already closing leave the final CLOSED to the closer -
+   any choice, so also the one the source makes *)
+Theorem C11_concurrent_close_at_most_once : forall skip n sched,
+  (cl_sent (close_run true skip n sched) <= 1)%nat.
 Proof. exact close_at_most_once. Qed.
 Print Assumptions C11_concurrent_close_at_most_once.
 
 (* without that lock two closers both send (the defect repaired by fix 30ae445) *)
-Theorem C11_unlocked_close_refuted : exists sched, cl_sent (close_run false 2 sched) = 2%nat.
+Theorem C11_unlocked_close_refuted : forall skip, exists sched, cl_sent (close_run false skip 2 sched) = 2%nat.
 Proof. exact unlocked_close_refuted. Qed.
 Print Assumptions C11_unlocked_close_refuted.
